@@ -68,7 +68,7 @@ class Leaf(resource.Resource, resource.PathCapable):
         return Message(payload=self.rid.encode())
 
 
-ATTRS = [dict(), dict(rt="x"), dict(rt="x y", ct="0 41"), dict(if_="core.s", ct="40"), dict(hidden=True), dict(rt="xy")]
+ATTRS = [dict(), dict(rt="x"), dict(rt="x y", ct="0 41"), dict(if_="core.s", ct="40"), dict(hidden=True), dict(rt="xy"), dict(rt="unit=C", if_="a=b=c")]
 
 
 def build_site(cfg, log):
@@ -199,7 +199,9 @@ def filter_model(links, k, v):
 
 
 FILTERS = [("rt", "x"), ("rt", "y"), ("rt", "x*"), ("rt", "xy"), ("rt", "z"), ("if", "core.s"), ("if", "core*"), ("ct", "40"), ("ct", "41"),
-           ("ct", "4*"), ("ct", "0"), ("href", "/a"), ("href", "/a*"), ("href", "/a/*"), ("href", "/.well-known/core"), ("href", "/zz*")]
+           ("ct", "4*"), ("ct", "0"), ("href", "/a"), ("href", "/a*"), ("href", "/a/*"), ("href", "/.well-known/core"), ("href", "/zz*"),
+           # values that contain '=' themselves: the criterion is split at its first '='
+           ("rt", "unit=C"), ("rt", "unit=*"), ("if", "a=b=c"), ("if", "a=b*"), ("href", "/m=1"), ("href", "/m=*"), ("rt", "unit")]
 
 
 def check_config(res, cfg, paths, discovery=True):
@@ -394,7 +396,7 @@ def configs(tier, seed):
             continue
         out.append((tuple(rs), (), ()))
     # nested sites: 1 or 2 of them with every inner shape, plus a few plain resources around
-    around = [(), ((("a",), 1),), ((("a", "b"), 2), (("",), 4)), (((), 5), (("a", ""), 3))]
+    around = [(), ((("a",), 1),), ((("a", "b"), 2), (("",), 4)), (((), 5), (("a", ""), 3)), ((("m=1",), 6), (("b",), 1))]
     for sp in SUBPATHS:
         for inner in INNER:
             for ar in around:
